@@ -8,11 +8,19 @@ import "net"
 type HookConn struct {
 	*RecConn
 	OnWrite func(frame []byte)
+	// Before, when set, runs first; it may block (a send that hangs in the kernel) and a non-nil error
+	// makes WriteTo fail without recording the frame.
+	Before func(frame []byte) error
 }
 
 func NewHookConn() *HookConn { return &HookConn{RecConn: NewRecConn()} }
 
 func (c *HookConn) WriteTo(b []byte, addr net.Addr) (int, error) {
+	if c.Before != nil {
+		if err := c.Before(b); err != nil {
+			return 0, err
+		}
+	}
 	n, err := c.RecConn.WriteTo(b, addr)
 	if err == nil && c.OnWrite != nil {
 		cp := make([]byte, len(b))
